@@ -40,6 +40,22 @@ type c10Layout struct {
 	Split   bool // false: siblings have adjacent ids (0,1 | 2,3 ...); true: sibling of cpu i is i + #cores (Linux default)
 	Procs   []koordletutil.ProcessorInfo
 	N       int
+	Gap     int // > 0: the upper half of the CPU ids is shifted up by Gap (offline CPUs in between: ids are not dense 0..N-1)
+}
+
+// c10WithGap returns the same layout with a hole of `gap` ids in the middle of the id space (lscpu lists only online CPUs).
+func c10WithGap(l *c10Layout, gap int) *c10Layout {
+	g := *l
+	g.Gap = gap
+	g.Name = fmt.Sprintf("%s-gap%d", l.Name, gap)
+	g.Procs = append([]koordletutil.ProcessorInfo{}, l.Procs...)
+	for i := range g.Procs {
+		if int(g.Procs[i].CPUID) >= l.N/2 {
+			g.Procs[i].CPUID += int32(gap)
+		}
+	}
+	sort.Slice(g.Procs, func(i, j int) bool { return g.Procs[i].CPUID < g.Procs[j].CPUID })
+	return &g
 }
 
 func c10MakeLayout(s, n, c, h int, split bool) *c10Layout {
@@ -85,6 +101,9 @@ func c10Layouts(maxN int) []*c10Layout {
 					if h == 2 {
 						out = append(out, c10MakeLayout(s, n, c, h, true))
 					}
+					if h == 2 && s == 1 && (n*c == 2 || n*c == 4) { // sparse CPU ids (seed C10-4): 4 and 8 CPUs with a hole in the middle
+						out = append(out, c10WithGap(c10MakeLayout(s, n, c, h, false), 4))
+					}
 				}
 			}
 		}
@@ -122,13 +141,10 @@ func (l *c10Layout) setNUMA0() []int {
 	sort.Ints(out)
 	return out
 }
-func (l *c10Layout) setLast() []int { return []int{l.N - 1} }
+func (l *c10Layout) setLast() []int { ids := l.ids(); return []int{ids[len(ids)-1]} }
 func (l *c10Layout) setUpperHalf() []int {
-	var out []int
-	for i := l.N / 2; i < l.N; i++ {
-		out = append(out, i)
-	}
-	return out
+	ids := l.ids()
+	return append([]int{}, ids[len(ids)/2:]...)
 }
 func c10FirstK(k int) []int {
 	var out []int
